@@ -95,6 +95,8 @@ package parser
 //@ ensures line: result.Line == s.line + 1 && 1 <= result.Line
 //@ ensures col: result.Column == s.offset - s.lineHead + 1 && 1 <= result.Column && result.Column <= len(s.src) - s.lineHead + 1
 //@ ensures lines: result.Line <= nl(elems(s.src), off(s.src), len(s.src)) + 1
+//@ ensures ok: posOK(s.src, result)
+//@ use posIn-def(elems(s.src), off(s.src), len(s.src), result.Line, result.Column)
 //@ use nl-bound(elems(s.src), off(s.src), s.offset)
 //@ use nl-mono(elems(s.src), off(s.src), s.offset, len(s.src) - s.offset)
 
@@ -106,3 +108,134 @@ package parser
 //@ ensures s.offset >= old(s.offset)
 //@ loop 0 invariant scanInv(s) && s.offset >= old(s.offset)
 //@ loop 0 decreases len(s.src) - s.offset
+
+// posOK: the position lies inside the text: its line is one of the text's lines, and its column is at most one
+// past the end of the line that starts at some line head h (the Column-1 runes before it contain no newline).
+// posIn is opaque (uninterpreted); its definition is the axiom posIn-def, revealed only in (*Scanner).pos by a "use" clause.
+//@ spec fun posIn(a Arr, o int, n int, line int, col int) bool
+//@ axiom posIn-def: forall a Arr, o int, n int, line int, col int :: posIn(a, o, n, line, col) <==> (1 <= line && line <= nl(a, o, n) + 1 && 1 <= col && (exists h int :: 0 <= h && h + col - 1 <= n && (h == 0 || select(a, o+h-1) == 10) && (forall k int :: h <= k && k < h + col - 1 ==> select(a, o+k) != 10)))
+//@ spec fun posOK(src []rune, p ast.Position) bool = posIn(elems(src), off(src), len(src), p.Line, p.Column)
+
+//@ func (*Scanner).scanIdentifier
+//@ props C15
+//@ requires scanInv(s)
+//@ modifies s.offset, s.lineHead, s.line
+//@ ensures inv: scanInv(s)
+//@ ensures s.offset >= old(s.offset)
+//@ loop 0 invariant scanInv(s) && s.offset >= old(s.offset) && (ret == nil || fresh(base(ret)))
+//@ loop 0 decreases len(s.src) - s.offset
+
+//@ func (*Scanner).scanNumber
+//@ props C15
+//@ requires scanInv(s)
+//@ modifies s.offset, s.lineHead, s.line
+//@ ensures inv: scanInv(s)
+//@ ensures s.offset >= old(s.offset)
+//@ loop 0 invariant scanInv(s) && s.offset >= old(s.offset) && len(result) >= 1 && fresh(base(result))
+//@ loop 0 decreases len(s.src) - s.offset
+//@ loop 1 invariant scanInv(s) && s.offset >= old(s.offset) && len(result) >= 1 && fresh(base(result))
+//@ loop 1 decreases len(s.src) - s.offset
+//@ loop 2 invariant scanInv(s) && s.offset >= old(s.offset) && len(result) >= 1 && fresh(base(result))
+//@ loop 2 decreases len(s.src) - s.offset
+
+//@ func (*Scanner).scanRawString
+//@ props C15
+//@ requires scanInv(s)
+//@ modifies s.offset, s.lineHead, s.line
+//@ ensures inv: scanInv(s)
+//@ ensures mono: s.offset >= old(s.offset)
+//@ ensures adv: result.1 == nil ==> s.offset >= old(s.offset) + 2 && s.src[s.offset-1] == l
+//@ loop 0 invariant scanInv(s) && s.offset >= old(s.offset) && (ret == nil || fresh(base(ret)))
+//@ loop 0 decreases len(s.src) - s.offset
+
+//@ func (*Scanner).scanString
+//@ props C15
+//@ requires scanInv(s)
+//@ modifies s.offset, s.lineHead, s.line
+//@ ensures inv: scanInv(s)
+//@ ensures mono: s.offset >= old(s.offset)
+//@ loop 0 invariant scanInv(s) && s.offset >= old(s.offset) && (ret == nil || fresh(base(ret)))
+//@ loop 0 decreases len(s.src) - s.offset
+
+//@ func (*Scanner).Scan
+//@ props C15
+//@ requires scanInv(s)
+//@ modifies s.offset, s.lineHead, s.line
+//@ ensures inv: scanInv(s)
+//@ ensures mono: s.offset >= old(s.offset)
+//@ ensures pos: posOK(s.src, pos)
+//@ loop 0 invariant scanInv(s) && s.offset >= old(s.offset)
+//@ loop 0 decreases len(s.src) - s.offset
+//@ loop 1 invariant scanInv(s) && s.offset >= athead(0, s.offset) && (s.offset == athead(0, s.offset) ==> s.offset < len(s.src) && s.src[s.offset] == 35)
+//@ loop 1 decreases len(s.src) - s.offset
+//@ loop 2 invariant scanInv(s) && s.offset > athead(0, s.offset)
+//@ loop 2 decreases len(s.src) - s.offset
+//@ loop 3 invariant scanInv(s) && s.offset > athead(0, s.offset)
+//@ loop 3 decreases len(s.src) - s.offset
+
+//@ func (*Scanner).Init
+//@ props C15
+//@ requires s != nil
+//@ modifies s.src
+//@ ensures fresh: s.offset == 0 && s.lineHead == 0 && s.line == 0 ==> scanInv(s)
+//@ use nl-zero(elems(s.src), off(s.src))
+
+//@ func (*Scanner).set
+//@ props C15
+//@ requires s != nil
+//@ modifies s.offset
+
+// ---------------------------------------------------------------------------
+// Lexer, Parse, ParseSrc (C15: every error is a *parser.Error whose position lies inside the text)
+//
+//@ spec fun errOK(src []rune, e error) bool = e == nil || (typeis(e, "*Error") && as(e, "*Error") != nil && posOK(src, as(e, "*Error").Pos))
+//@ spec fun lexInv(l *Lexer) bool = l != nil && l.s != nil && scanInv(l.s) && errOK(l.s.src, l.e)
+
+//@ func (*Error).Error
+//@ props C15
+//@ requires e != nil
+
+//@ func (*Lexer).Lex
+//@ props C15
+//@ requires lexInv(l) && lval != nil
+//@ modifies l.e, l.lit, l.pos, l.s.offset, l.s.lineHead, l.s.line, lval.tok
+//@ ensures inv: lexInv(l)
+//@ ensures pos: posOK(l.s.src, l.pos)
+//@ ensures sticky: old(l.e) != nil ==> l.e != nil
+
+//@ func (*Lexer).Error
+//@ props C15
+//@ requires lexInv(l)
+//@ requires lexed: posOK(l.s.src, l.pos)
+//@ modifies l.e
+//@ ensures inv: lexInv(l)
+//@ ensures set: l.e != nil
+
+// The goyacc driver (yyParserImpl.Parse, reached through yyParse) is trusted: it touches the lexer only through
+// Lex and Error (which preserve lexInv) and through the semantic actions, which assign l.stmt and call Error.
+//@ func yyParse
+//@ props C15
+//@ trusted
+//@ requires typeis(yylex, "*Lexer") && lexInv(as(yylex, "*Lexer"))
+//@ modifies *
+//@ ensures lexInv(as(yylex, "*Lexer")) && as(yylex, "*Lexer").s == old(as(yylex, "*Lexer").s) && as(yylex, "*Lexer").s.src == old(as(yylex, "*Lexer").s.src)
+
+//@ func Parse
+//@ props C15
+//@ requires scanInv(s)
+//@ modifies *
+//@ ensures errtype: errOK(s.src, result.1)
+
+//@ func ParseSrc
+//@ props C15
+//@ modifies *
+//@ ensures errtype: result.1 == nil || (typeis(result.1, "*Error") && as(result.1, "*Error") != nil)
+//@ use nl-zero(elems(scanner.src), off(scanner.src))
+
+//@ func EnableErrorVerbose
+//@ props C15
+//@ modifies yyErrorVerbose
+
+//@ func EnableDebug
+//@ props C15
+//@ modifies yyDebug
